@@ -85,7 +85,7 @@ func hasRequiredReachable(md protoreflect.MessageDescriptor, seen map[protorefle
 }
 
 func runC17(cfg *config, res *monitor.Result) {
-	nvals := 12
+	nvals := 30
 	if cfg.thorough() {
 		nvals = 150
 	}
